@@ -97,6 +97,25 @@ def host_of(k):
     return 'h%d.test' % k
 
 
+class ClientBoom(Exception):
+    """Raised by a client inside `with pool.session(...)`."""
+
+
+class _NotStarted(object):
+    """Stand-in for an entry of the pool's release bookkeeping that is not a task (observation must stay total)."""
+    def __init__(self, obj):
+        self.obj = obj
+
+    def done(self):
+        return False
+
+    def cancelled(self):
+        return False
+
+    def add_done_callback(self, cb):
+        pass
+
+
 class Run(object):
     watchdog_s = 15.0      # CPU seconds of the executing thread (a run normally takes milliseconds)
     DEFAULTS = dict(c=0, k=0, x=0, ok=False, mode='', cl=False, r=0, st='', why='')
@@ -121,6 +140,7 @@ class Run(object):
         self.steps = 0
         self.max_steps = max_steps
         self.connect_fail = False
+        self.ctx = False        # True: connections are taken through ConnectionPool.session() (a context manager)
         self.conn_ids = {}      # id -> connection object
         self.state = {c: 'idle' for c in range(1, N + 1)}   # idle | acq | use | rel | done | cancelled | error
         self.nuse = {c: 0 for c in range(1, N + 1)}
@@ -236,6 +256,8 @@ class Run(object):
     def track_release_task(self, r, x, conn, before):
         new = [t for t in getattr(self.pool, '_release_tasks', ()) if t not in before]
         task = new[0] if new else None
+        if task is not None and not hasattr(task, 'add_done_callback'):
+            task = _NotStarted(task)      # something that is not a task was queued: the release has not even begun
         if task is not None:
             self.rel_tasks[r] = (task, conn)
             task.add_done_callback(lambda t, r=r: self._rtask_done(r, t))
@@ -251,8 +273,13 @@ class Run(object):
             self.state[c] = 'acq'
             self.key_of[c] = k
             self.log(e='start', c=c, k=k)
+            sess = None
             try:
-                conn = yield from pool.acquire(host_of(k), 80)
+                if self.ctx:
+                    sess = yield from pool.session(host_of(k), 80)
+                    conn = sess.__enter__()
+                else:
+                    conn = yield from pool.acquire(host_of(k), 80)
             except asyncio.CancelledError:
                 self.state[c] = 'cancelled'
                 self.log(e='acqx', c=c, k=k, why='cancel')
@@ -288,13 +315,23 @@ class Run(object):
             cl = bool(conn.closed())      # logged: is the connection closed when it is given back
             del self.conn_of[c]
             self.nuse[c] += 1
-            if mode == 'n':
+            if mode in ('n', 'x') or sess is not None:
                 self.nrel += 1
                 r = self.nrel
                 before = set(getattr(pool, '_release_tasks', ()))
                 self.rel_of[id(conn)] = r
                 self.rel_x[r] = x
-                pool.no_wait_release(conn)
+                if sess is not None:
+                    # leaving the with block: normally, or (mode 'x') because its body raised
+                    try:
+                        if mode == 'x':
+                            sess.__exit__(ClientBoom, ClientBoom('body failed'), None)
+                        else:
+                            sess.__exit__(None, None, None)
+                    except ClientBoom:
+                        pass
+                else:
+                    pool.no_wait_release(conn)
                 self.track_release_task(r, x, conn, before)
                 self.state[c] = 'idle' if self.nuse[c] < self.uses else 'done'
                 self.log(e='rel', c=c, x=x, mode='n', cl=cl, r=r)
